@@ -11,7 +11,7 @@ RULE = ("cases are up to 3 classes (K0: int/str/list/optional fields, getters, s
         "methods, methods returning self/Self, a method taking another instance; K1: a field of class type with methods "
         "reaching through it; K2: same member names as K0 with different behaviour) with randomised constants, plus a "
         "history of up to 15 steps (construct, alias, method call, chained calls, field read/write/op-assign, write through a "
-        "nested field, pass to a function, store in / read from a list, `is`, replace a class-typed field); after every "
+        "nested field, pass to a function, store in / read from a list, `is`, replace a class-typed field, replace a list-typed field by a fresh / shared / outside list and push through one holder); after every "
         "step the `n` of every live K0/K2 object is printed. Oracle = reference interpreter with an object heap. Non-trivial "
         "= >= 2 instances of one class and an update through an alias that is read through another reference; distinct by "
         "program text")
@@ -42,6 +42,9 @@ def classes(g):
            ("absorb", [("other", ("cls", "Self"))], None,
             [("setf", SELF, "n", ("bin", "+", F(SELF, "n"), F(V("other"), "n"))), ("setf", V("other"), "n", I(0))]),
            ("set_o", [("v", ("opt", "int"))], None, [("setf", SELF, "o", V("v"))]),
+           ("reset_l", [], None, [("setf", SELF, "l", ("list", []))]),
+           ("share_l", [("other", ("cls", "Self"))], None, [("setf", SELF, "l", F(V("other"), "l"))]),
+           ("take_l", [("v", ("list", "int"))], None, [("setf", SELF, "l", V("v"))]),
            ("twin", [], ("cls", "Self"), [("return", ("new", "Self", [("bin", "+", F(SELF, "n"), I(1)), F(SELF, "s")]))]),
            ])
     k1 = ("class", "K1", [("inner", ("cls", "K0")), ("tag", "str")], [("inner", ("cls", "K0")), ("tag", "str")],
@@ -78,7 +81,7 @@ def cases(draw):
     steps = g.int(3, 15)
     for step in range(steps):
         ops = [(3, "new0"), (2, "alias"), (4, "method"), (2, "chain"), (3, "fieldw"), (2, "fieldr"), (2, "is"), (2, "fn"),
-               (3, "new1"), (1, "new2"), (1, "list"), (2, "absorb"), (1, "twin"), (1, "opt")]
+               (3, "new1"), (1, "new2"), (1, "list"), (2, "absorb"), (1, "twin"), (1, "opt"), (3, "listfield")]
         if k1s:
             ops += [(3, "k1op")]
         if k2s:
@@ -198,6 +201,32 @@ def cases(draw):
             stmts.append(("decl", name, None, ("mcall", V(o), "twin", []), ()))
             k0s.append(name)
             distinct0 += 1
+        elif op == "listfield":
+            # a list-typed field replaced by another list (fresh, shared with another object, or a module-level list):
+            # which list the field holds afterwards decides who sees later pushes
+            o = g.choice(k0s)
+            k = g.choice(["reset", "share", "take", "direct-fresh", "direct-share", "clear-then-reset"])
+            g.label("list-field:" + k)
+            if k == "reset":
+                stmts.append(("expr", ("mcall", V(o), "reset_l", [])))
+            elif k == "share":
+                stmts.append(("expr", ("mcall", V(o), "share_l", [V(g.choice(k0s))])))
+                aliased = True
+            elif k == "take":
+                name = "fl%d" % step
+                stmts.append(("decl", name, ("list", "int"), ("list", [I(g.int(0, 9)) for _ in range(g.int(0, 2))]), ()))
+                stmts.append(("expr", ("mcall", V(o), "take_l", [V(name)])))
+                stmts.append(("expr", ("mcall", V(name), "push", [I(g.int(10, 19))])))
+            elif k == "direct-fresh":
+                stmts.append(("setf", V(o), "l", ("list", [I(g.int(0, 9)) for _ in range(g.int(0, 1))])))
+            elif k == "direct-share":
+                stmts.append(("setf", V(o), "l", F(V(g.choice(k0s)), "l")))
+                aliased = True
+            else:
+                stmts.append(("expr", ("mcall", F(V(o), "l"), "clear", [])))
+                stmts.append(("expr", ("mcall", V(o), "reset_l", [])))
+            stmts.append(("expr", ("mcall", V(g.choice(k0s)), "push", [I(g.int(1, 9))])))
+            alias_write_then_read = alias_write_then_read or aliased
         elif op == "opt":
             o = g.choice(k0s)
             if g.chance(50):
@@ -208,6 +237,8 @@ def cases(draw):
         e = S("")
         for o in k0s + k2s:
             e = ("bin", "+", e, ("bin", "+", S(" "), F(V(o), "n")))
+        for o in k0s:
+            e = ("bin", "+", e, ("bin", "+", S(" l"), ("mcall", V(o), "sum", [])))
         stmts.append(("print", e))
     return {"stmts": stmts, "labels": sorted(g.labels), "nt": distinct0 >= 2 and alias_write_then_read}
 
